@@ -128,8 +128,12 @@ pub fn emit_twin_case<T: Sc>(
     emit_twin_case_f(out, kind_attrs, c, primary, twins, None)
 }
 
-fn emit_tables_f<T: Sc>(out: &mut Out, recipe: &Recipe, alpha: &[T], fail: Option<(usize, T)>) {
-    out.line(&format!(" phi ok {}", mat_str(&recipe.phi::<T>(alpha))));
+fn emit_tables_f<T: Sc>(out: &mut Out, recipe: &Recipe, alpha: &[T], fail: Option<(usize, T)>, w: &Option<Vec<T>>) {
+    let phi = recipe.phi::<T>(alpha);
+    if crate::state::svd_breaks(&phi, w) {
+        out.line(" svdq nonfinite");
+    }
+    out.line(&format!(" phi ok {}", mat_str(&phi)));
     for k in 0..recipe.p() {
         match fail {
             Some((kf, thr)) if kf == k && alpha[0] > thr => out.line(&format!(" d {} err", k)),
@@ -151,7 +155,7 @@ pub fn emit_twin_case_f<T: Sc>(
     emit_inputs(out, c);
     let mut prob = primary;
     out.line(&format!("step build {}", slice_str(&c.init)));
-    emit_tables_f(out, &c.recipe, &c.init, fail);
+    emit_tables_f(out, &c.recipe, &c.init, fail, &c.w);
     out.line(&format!(" impl yw {}", mat_str(&prob.yw())));
     emit_outputs(out, "impl", prob.as_ref());
     for t in twins.iter() {
@@ -160,7 +164,7 @@ pub fn emit_twin_case_f<T: Sc>(
     }
     for alpha in c.history.iter() {
         out.line(&format!("step set {}", slice_str(alpha)));
-        emit_tables_f(out, &c.recipe, alpha, fail);
+        emit_tables_f(out, &c.recipe, alpha, fail, &c.w);
         let av = DVector::from_vec(alpha.clone());
         if let Err(m) = guarded(|| prob.set(&av)) {
             out.line(&format!(" impl panic {}", m));
